@@ -180,6 +180,23 @@ func genC04(t *rapid.T) any {
 				e = sq.And(e, a)
 			}
 		}
+		if nk >= 2 && rapid.IntRange(0, 3).Draw(t, "equi.cross") == 0 {
+			// one column of one side compared with two different columns of the other side
+			// (x.a = y.b AND x.a = y.c): the key columns of the two sides do not pair off one to one
+			i := rapid.IntRange(0, nk-1).Draw(t, "equi.cross.i")
+			j := rapid.IntRange(0, nk-2).Draw(t, "equi.cross.j")
+			if j >= i {
+				j++
+			}
+			big := func(side, col string) bool { return strings.HasPrefix(c.GoTypes[side][col], "big") }
+			if pairs[i].kind == pairs[j].kind && !big("l", pairs[i].l) && !big("r", pairs[j].r) && !big("l", pairs[j].l) && !big("r", pairs[i].r) {
+				l, r := "x."+pairs[i].l, "y."+pairs[j].r
+				if rapid.Bool().Draw(t, "equi.cross.side") {
+					l, r = "x."+pairs[j].l, "y."+pairs[i].r
+				}
+				e = sq.And(e, orient("=", l, r, rapid.Bool().Draw(t, "equi.cross.flip")))
+			}
+		}
 		c.On = e
 	} else {
 		var gen func(depth int, label string) *sq.E
